@@ -233,6 +233,189 @@ def rule_r3(repo):
     rr.require_floor(1)
     return rr
 
+def rule_stream_commands(repo, rule='C12.R11'):
+    """The commands that read a stream message by message hand every message on (render, print, write) before they ask the scanner
+    for the next one: when the scan fails at message k, the k - 1 messages before it have been delivered.  Folded with the scanner
+    replaced by a lazy scripted iterator that yields two messages and then raises the library error."""
+    from sa.patheval import Interp, Obj, Raise, Stub, Top, FuncRef, LazyIter, Sym
+    rr = RuleResult(rule, 'stream commands deliver each message before asking the scanner for the next one (the messages before a damaged one are delivered)')
+    mod = repo.module('commands')
+    users = []
+    for name, fi in sorted(mod.funcs.items()):
+        if name.startswith('command_') and any(isinstance(c.func, ast.Name) and c.func.id == 'generate_bufr_message' for c in effects(fi).calls):
+            users.append(fi)
+    if len(users) < 3:
+        raise AnalysisError('only %d commands use generate_bufr_message (expected decode, info, split)' % len(users))
+
+    class I(Interp):
+        MAX_PATHS = 4000
+
+        def uses(self, args, kwargs):
+            for a in list(args) + list(kwargs.values()):
+                if isinstance(a, Stub) and a.label.startswith('message '):
+                    self.event('deliver', a.label)
+
+        def on_call(self, text, callee, args, kwargs, node, frame):
+            it = self
+            if text == 'generate_bufr_message':
+                def on_next(k):
+                    it.event('next', k)
+
+                def method(interp, a, kw, node, frame):
+                    return Top('result')
+                msgs = [Stub('message %d' % k, {'wire': lambda interp, a, kw, node, frame: it.event('deliver', 'message %d' % k),
+                                                'build_template': lambda interp, a, kw, node, frame: (Top('template'), Top('tables'))},
+                             attrs={'serialized_bytes': Sym('BYTES%d' % k)}) for k in (0, 1)]
+                for k, m in enumerate(msgs):
+                    m.methods['wire'] = (lambda kk: (lambda interp, a, kw, node, frame: it.event('deliver', 'message %d' % kk)))(k)
+                return LazyIter(msgs + [Raise(ROOT, node, it.where(node, frame), Obj(ROOT, {'args': ['scripted'], 'message': 'scripted'}))], on_next, 'scanner')
+            if text == 'open':
+                def write(interp, a, kw, node, frame):
+                    for x in a:
+                        r = repr(x)
+                        if r.startswith('BYTES'):
+                            it.event('deliver', 'message %s' % r[5:])
+                    return None
+                return Stub('file', {'read': lambda interp, a, kw, node, frame: Sym('STREAM'), 'write': write})
+            if text.startswith('log.') or text.startswith('sys.'):
+                return None
+            self.uses(args, kwargs)
+            if isinstance(callee, FuncRef):
+                return self.NOT_HANDLED
+            if text in ('print',) or text.startswith('json.'):
+                return Top('text')
+            if text[:1].isupper() and '.' not in text:
+                # a collaborator class (Decoder, renderers): an object whose methods record the messages they are given
+                return Stub(text)
+            return self.NOT_HANDLED
+
+        def builtin(self, name, args, kwargs, node, frame):
+            if name == 'print':
+                return None
+            return Interp.builtin(self, name, args, kwargs, node, frame)
+    # Stub.call_method does not see arguments: deliveries through renderer.render(m) are recorded by a Stub subclass
+
+    class Rec(Stub):
+        def call_method(self2, name, args, kwargs, interp, frame, node):
+            interp.uses(args, kwargs)
+            return Stub.call_method(self2, name, args, kwargs, interp, frame, node)
+    _orig_stub = Stub
+
+    for fi in users:
+        for flags in ({'multiple_messages': True, 'count_only': False}, {'multiple_messages': True, 'count_only': False, 'attributed': True, 'json': True}):
+            it = I(repo, None)
+            fields = {'filenames': ['f.bufr'], 'definitions_directory': None, 'tables_root_directory': None, 'compiled_template_cache_max': None,
+                      'continue_on_error': False, 'ignore_value_expectation': False, 'filter': None, 'attributed': False, 'json': False, 'template': False}
+            fields.update(flags)
+            ns = Obj('Namespace', fields)
+
+            class J(I):
+                def on_call(self3, text, callee, args, kwargs, node, frame):
+                    r = I.on_call(self3, text, callee, args, kwargs, node, frame)
+                    if isinstance(r, Stub) and type(r) is Stub and not r.label.startswith('message') and r.label != 'file':
+                        return Rec(r.label, r.methods, r.attrs)
+                    return r
+            it = J(repo, None)
+            res = it.run_function(fi, lambda: {'ns': ns})
+            rr.instance('%s%s: scanner yields two messages, then fails' % (fi.name, ' (attributed JSON)' if flags.get('attributed') else ''))
+            n_raise = 0
+            for r in res:
+                ev = [(e[0], e[1]) for e in r.events if e[0] in ('next', 'deliver')]
+                if not any(e[0] == 'next' for e in ev):
+                    continue        # a path that does not scan (another mode of the command)
+                if r.ok:
+                    rr.fail('%s:error-swallowed' % fi.name, fi.where, '%s returns normally although the scan failed after two messages (events %s)' % (fi.name, ev))
+                    continue
+                n_raise += 1
+                # between next(k) and next(k+1) message k must have been delivered
+                pos = dict((e[1], i) for i, e in enumerate(ev) if e[0] == 'next')
+                for k in (0, 1):
+                    lo, hi = pos.get(k), pos.get(k + 1)
+                    delivered = lo is not None and hi is not None and any(e == ('deliver', 'message %d' % k) for e in ev[lo:hi])
+                    if not delivered:
+                        rr.fail('%s:delivery-order' % fi.name, fi.where, '%s asks the scanner for message %d before message %d has been rendered / written '
+                                '(events %s): when a later message of the stream is damaged, the messages before it are not delivered' % (fi.name, k + 1, k, ev),
+                                witness={'events': [list(e) for e in ev]})
+                        break
+            if n_raise == 0:
+                raise AnalysisError('%s: no path of the fold reaches the scripted scanner failure' % fi.name)
+    rr.require_floor(6)
+    return rr
+
+def rule_descriptor_list(repo, rule='C12.R12'):
+    """Decoder.process_unexpanded_descriptors folded on concrete section-3 contents: every 16-bit entry up to the declared length is a
+    descriptor of the template, whatever its value - an entry that is in no table (000000 included) must reach the template, where it
+    is refused, and must not end or thin out the list."""
+    from sa.patheval import Interp, Native, Obj, Raise, Top
+    from sa.rules.c04 import SectionModel, param
+    rr = RuleResult(rule, 'every entry of the descriptor list in section 3 is kept: undefined ones (000000 included) are not dropped or taken for fill')
+    fi = repo.method('Decoder', 'process_unexpanded_descriptors')
+
+    class Bits(Native):
+        def __init__(self, bits, pos=0):
+            self.bits, self.pos = bits, pos
+
+        def __repr__(self):
+            return 'Bits@%d' % self.pos
+
+        def call_method(self, name, args, kwargs, interp, frame, node):
+            if name == 'get_pos':
+                return self.pos
+            if name in ('read_uint', 'read_uint_or_none') or (name == 'read' and args and args[0] == 'uint'):
+                n = args[-1]
+                if not isinstance(n, int):
+                    raise AnalysisError('descriptor list read with a width the fold cannot follow: %r' % (n,))
+                if self.pos + n > len(self.bits):
+                    raise Raise('BitReadError', node, interp.where(node, frame))
+                v = int(self.bits[self.pos:self.pos + n], 2) if n else 0
+                self.pos += n
+                return v
+            if name == 'read_bool':
+                self.pos += 1
+                return self.bits[self.pos - 1] == '1'
+            if name in ('read_bin',):
+                n = args[0]
+                self.pos += n
+                return self.bits[self.pos - n:self.pos]
+            if name == 'skip':
+                self.pos += args[0]
+                return None
+            raise AnalysisError('descriptor list read through bit_reader.%s, which the fold does not model' % name)
+
+    class I(Interp):
+        def on_call(self, text, callee, args, kwargs, node, frame):
+            if text.startswith('log.'):
+                return None
+            return self.NOT_HANDLED
+    lists = [
+        ('defined descriptors', [301001, 12101, 101002, 10004]),
+        ('000000 in the middle', [301001, 0, 12101]),
+        ('000000 first', [0, 12101]),
+        ('000000 last', [12101, 0]),
+        ('only 000000', [0]),
+        ('undefined element and sequence', [1001, 63255, 363255, 12101]),
+        ('all ones', [363255, 263255]),
+        ('repeated descriptor', [12101, 12101, 12101]),
+    ]
+    for name, ids in lists:
+        head = 7 * 8        # section length (3) + reserved (1) + subset count (2) + flags (1) precede the list
+        bits = '0' * head + ''.join(format(((i // 100000) << 14) | ((i // 1000 % 100) << 8) | (i % 1000), '016b') for i in ids)
+        for extra in (0, 1):
+            # a declared length with one surplus octet (even-octet padding of edition <= 3): the odd octet is not an entry
+            sec = SectionModel([param('section_length', 24, value=7 + 2 * len(ids) + extra)], {'index': 3, 'bitpos_start': 0, 'BITPOS_START': 0})
+            it = I(repo, 'Decoder')
+            res = it.run_function(fi, lambda: {'self': Obj('Decoder', {}), 'bit_reader': Bits(bits + '0' * 8 * extra, head), 'section': sec}, self_class='Decoder')
+            rr.instance('section 3 with %s%s' % (name, ', one padding octet' if extra else ''))
+            for r in res:
+                if not r.ok or r.value != ids:
+                    rr.fail('Decoder.process_unexpanded_descriptors:%s' % name.replace(' ', '-'), fi.where,
+                            'a section 3 that lists %s%s is read as %s: every entry must be handed to the template (an undefined one is refused there '
+                            'with UnknownDescriptor); dropping it lets a damaged message decode' % (
+                                ['%06d' % i for i in ids], ' plus one padding octet' if extra else '', ['%06d' % i for i in r.value] if r.ok and isinstance(r.value, list) and
+                                all(isinstance(x, int) for x in r.value) else r.describe()), witness={'ids': ids, 'padding_octets': extra})
+    rr.require_floor(16)
+    return rr
+
 
 def rule_r4(repo):
     rr = RuleResult('C12.R4', 'expected values (start / stop signature) are validated for every parameter unless explicitly disabled; folded')
@@ -415,6 +598,8 @@ def run(repo, check):
     check.add(r6)
     check.run_rule(rule_r7, repo)
     check.run_rule(rule_r8, repo)
+    check.run_rule(rule_stream_commands, repo)
+    check.run_rule(rule_descriptor_list, repo)
     from sa.rules import c17
     from sa.rules.common import share
     share(check, repo, c17.rule_r3, 'C12.R9', 'disabling the signature check for one decode does not disable it for later ones: shared layouts are not written (shared with C17.R3)')
